@@ -35,6 +35,9 @@ func ExpectTopLevel(n *xt.Node, contentNS, s2sFrom string) *xt.Node {
 	hasID, hasFrom := false, false
 	for _, a := range e.Attr {
 		switch {
+		case a.Name.Space != "":
+			// an attribute in some namespace (x:id, x:from) is not the stanza's
+			// own id or sender: kept as it is
 		case a.Name.Local == "id":
 			if a.Value == "" {
 				continue
